@@ -77,7 +77,9 @@ CLAIMED = {
          "Underneath, for ALL states with well-formed domains and acyclic substitutions, all operands: post_constraint, post_domain, the store "
          "re-run and == (including the hand-over of the domains of newly bound variables) yield a state all of whose solutions satisfy the "
          "posted constraint and everything stored before (FDDen, FDEq), whether the propagator decided, pruned, dropped or bound; plus exact "
-         "ground decisions per propagator. The reification step and the Rust-side hash order are outside; the tie to the code is the "
+         "ground decisions per propagator, and QUIESCENCE (QProofs, QStream): in every state of every stream of every elaborated goal and in every "
+         "delivered answer, no ltefd/plusfd/minusfd/timesfd/diseqfd/plusz/timesz constraint is stored with all of its operands resolved to numbers "
+         "- such a constraint has been decided and removed, never left unchecked with stale operands. The reification step and the Rust-side hash order are outside; the tie to the code is the "
          "brute-force enumeration of the domain product on generated programs, with the answer multiset also compared with the model.",
          "6/C16", "Coq proof of whole-program soundness of CLP(FD) (logical reading of every posted constraint holds in every solution of every delivered answer) + brute-force domain-product oracle + differential correspondence",
          "The theorem is about the model (hand-written, step-exact against the implementation on generated programs); reified answers are related to the pre-reification state by C03."),
